@@ -13,6 +13,7 @@ documented variable count.
 import itertools
 
 from . import common, gen, project, cands
+from .exc import exc_name
 
 BLOCK = ["xor", "or", "maj", "eq", "neq", "one"]
 LIN = ["exact", "atleast", "atmost", "anybut"]
@@ -77,7 +78,7 @@ def record(rid, kind, k, C, N, clauses, graph=None, kf=None):
         rec["outcome"] = "ok"
     except Exception as e:
         rec["out"] = {"nvars": 0, "clauses": []}
-        rec["outcome"] = type(e).__name__
+        rec["outcome"] = exc_name(e)
     return rec
 
 
